@@ -1,3 +1,4 @@
+CONSTANT Fault <- MCFault
 SPECIFICATION Spec
 INVARIANT NoLawViolated
 CHECK_DEADLOCK FALSE
